@@ -228,7 +228,9 @@ class World(object):
         tax = tax or self.tax
         leaves, st = self.model_stats()
         if row_order is None:
+            # cluster_to_row is deliberately not in sorted-name order
             row_order = list(range(len(leaves)))
+            random.Random(len(leaves) * 1009 + len(self.genes)).shuffle(row_order)
         # cluster_to_row deliberately not in sorted order
         cluster_to_row = {leaves[i]: r for r, i in enumerate(row_order)}
         inv = [None] * len(leaves)
